@@ -56,6 +56,14 @@
 #                form -L<L> takes part as a second argument (kind from the tables).  Only list() observes here: which
 #                library shapes get --start-group/--end-group in to_native is not stated by the property (native part
 #                covers the shapes of its alphabet).
+#   part tail    the override kinds are named by the OPTION (-I/-L front-most wins, -D/-U/-isystem last wins); the VALUE of the option
+#                is a dimension: for every class that declares override options and every library-file ending (.a .so .lib .dll
+#                .dylib, path/libq.so.1) a variant alphabet in which the value of every override option ends that way (-Ia.a, -La.so,
+#                -Dx=.so with -Ux as the contradicting setting, -isystemq.a), next to the unchanged once-only and plain arguments.
+#                An argument that starts with an override option is that option's argument, not "a library file": kinds as in
+#                the plain alphabet (C-like: from the statement; D: from its tables).  Breadth-first search to depth 3 over
+#                {observers, copy, (+=, append_direct, insert(0,)) x every argument, += [x, y] for the override-type x, y}, all
+#                observers on every state.  to_native: such an option is not a library, so it does not count for group markers.
 #   part eqread  `a == b` is a read of BOTH objects: for every pair of histories <= 2 the comparison must say what the
 #                comparison of the two eager lists says (in both directions, and against the plain list).
 #
@@ -67,8 +75,10 @@
 #   * a bare `-isystem` that is not followed by a directory operand      -> skipped_unspecified (native part)
 #   * a prepend prefix used as a bare option whose operand is the next argument (`-I dir`): the tables say "goes in
 #     front" and "defined by what follows it" at the same time -> in no alphabet
-#   * an argument that matches an override table and a once-only table of its class at once (`-Ifoo.a`): the tables
-#     do not say which wins -> in no alphabet (table_kind returns None, the probe counts it as ambiguous)
+#   * an argument that matches an override table and a once-only table of its class at once in a way the statement does
+#     not resolve (an override SUFFIX/standalone entry against a once-only entry, an override option against a once-only
+#     PREFIX): the tables do not say which wins -> in no alphabet (table_kind returns None, the probe counts it as
+#     ambiguous).  NOT open: override option + library-file ending of its value (`-Ifoo.a`, `-DEXT=.so`) - part tail.
 #   * a versioned shared-library name without the lib prefix (`z.so.1`) or with more than three numeric components
 #     (`libz.so.1.2.3.4`): the contract names the form path/to/libfoo.so.0.1.0 only -> in no alphabet
 #   (absolute paths given to append_direct/extend_direct are covered by one absolute library path, alone and in
@@ -221,6 +231,54 @@ def build_kinds():
 build_kinds()
 # settings that contradict each other: the later-added one must take effect (come last)
 SAME_SETTING = [('-Dx', '-Ux')]
+
+# Value tails (part tail).  The override kinds are named by the OPTION (-I/-L: front-most wins; -D/-U/-isystem: last wins); what
+# the option's VALUE looks like is a dimension of its own.  The values that matter are those that end like a library file
+# (the once-only kind is recognised by the end of the argument): one variant alphabet per library-file ending, in which the value
+# of every override option of the class ends that way, next to the unchanged once-only and plain arguments.
+LIB_TAILS = collections.OrderedDict([('a', '.a'), ('so', '.so'), ('lib', '.lib'), ('dll', '.dll'), ('dylib', '.dylib'),
+                                     ('path.so.N', '/libq.so.1')])
+# the override options the property statement names, longest first
+STATED_OPTIONS = [('-isystem', BACK_OVR), ('-I', FRONT_OVR), ('-L', FRONT_OVR), ('-D', BACK_OVR), ('-U', BACK_OVR)]
+
+
+def tail_alphabet(clsname, t):
+    if clsname == 'clike':
+        # `-Ux` contradicts `-Dx=<value>` (a macro name has no value tail of its own)
+        return ['-Ia' + t, '-Ib' + t, '-La' + t, '-Dx=' + t, '-Ux', '-isystemq' + t, '-lfoo', 'libz.a', '-Wall']
+    if clsname == 'd':
+        # D declares one override option (-I); its -L forms are linker pass-through (kinds from the tables, as in ALPHA_D)
+        return ['-Ia' + t, '-Ib' + t, '-L-lfoo', '-L-lbar', '-L/x/libfoo.a', 'libz.a', '-O']
+    raise AssertionError(clsname)
+
+
+def tail_classes():
+    """The classes that declare override options at all."""
+    return [c for c in CLASSES if CLS[c].dedup2_prefixes]
+
+
+def tail_register():
+    """Enter the kinds of the tail alphabets into the kind tables: C-like from the property statement (by option), D from its
+    tables.  Returns the contradictions between statement and tables, and the arguments the tables leave open."""
+    bad, unspecified = [], []
+    for c in tail_classes():
+        for label, t in LIB_TAILS.items():
+            for a in tail_alphabet(c, t):
+                tk = table_kind(CLS[c], a)
+                st = None
+                if c == 'clike':
+                    st = STATED[c].get(a) or next((k for o, k in STATED_OPTIONS if a.startswith(o) and a != o), None)
+                if st is not None and tk != st:
+                    bad.append((c, a, st, tk, label))
+                if st is None and tk is None:
+                    unspecified.append((c, a))
+                KINDS[c][a] = st if st is not None else tk
+            if c == 'clike' and ('-Dx=' + t, '-Ux') not in SAME_SETTING:
+                SAME_SETTING.append(('-Dx=' + t, '-Ux'))
+    return bad, unspecified
+
+
+tail_register()
 ENC = {a: chr(97 + i) for i, a in enumerate(dict.fromkeys(ALPHA + ALPHA_D + [ABS] + BARE_ATOMS))}
 DEC = {v: k for k, v in ENC.items()}
 
@@ -257,6 +315,20 @@ def build_ops(alpha):
     for a in alpha:
         ops.append(('extend_direct', (ABS, a)))
         ops.append(('extend_direct', (a, ABS)))
+    return ops
+
+
+def build_tail_ops(alpha, kinds):
+    """Operations of the tail part: the observers, copy, every argument alone through the three routes that classify
+    differently (+=, direct insertion, insert(0,)), and the two-element batches of the override-type arguments."""
+    ops = [('read', ()), ('tn_copy', ()), ('copy', ())]
+    for name in ('iadd', 'append_direct', 'insert0'):
+        for a in alpha:
+            ops.append((name, (a,)))
+    ovr = [a for a in alpha if kinds[a].override]
+    for a in ovr:
+        for b in ovr:
+            ops.append(('iadd', (a, b)))
     return ops
 
 
@@ -376,9 +448,19 @@ def ref_is_default_dir(d):
     return os.path.realpath(d) in DEFDIRS
 
 
-def ref_native(lst, clsname):
+NARROW_GROUP = 'to_native-group-markers-count-option-whose-value-has-library-suffix-as-library'
+
+
+def option_with_library_tail(a):
+    """An option (not -l.../-Wl,...) whose value ends like a library file."""
+    return a.startswith('-') and not a.startswith(('-l', '-Wl,')) and stated_library_file(a.lstrip('-'))
+
+
+def ref_native(lst, clsname, tails_as_libs=False):
     """to_native for a GNU-like linker: the list minus default -isystem directories, with one
-    --start-group/--end-group pair around first..last library when there are at least two."""
+    --start-group/--end-group pair around first..last library when there are at least two.
+    tails_as_libs: NOT the expectation - the list one gets when every option whose value ends like a library file is
+    counted as a library too; only used to give that one defect class its own key."""
     if clsname != 'clike':
         return list(lst)
     out = []
@@ -393,7 +475,7 @@ def ref_native(lst, clsname):
             continue
         out.append(a)
         i += 1
-    libs = [i for i, a in enumerate(out) if a in LIBS]
+    libs = [i for i, a in enumerate(out) if a in LIBS or (tails_as_libs and option_with_library_tail(a))]
     if len(libs) >= 2:
         out = out[:libs[0]] + ['-Wl,--start-group'] + out[libs[0]:libs[-1] + 1] + ['-Wl,--end-group'] + out[libs[-1] + 1:]
     return out
@@ -535,6 +617,14 @@ class Acc:
             self.v.append((key, what, replay))
 
 
+class ShapeAcc(Acc):
+    """Accumulator that marks every key with the value class (library-file shape, value tail) of the case."""
+    suffix = ''
+
+    def viol(self, key, what, replay):
+        Acc.viol(self, key if NARROW_GROUP in key else key + self.suffix, what, replay)
+
+
 def run_case(clsname, ops, acc, compare_prefix, key_idx=None):
     """Execute ops (a list of operations, the last one possibly an observer) on a fresh real object next to the
     reference. If compare_prefix, every observer inside the sequence is compared; the last step always is.
@@ -599,7 +689,8 @@ def run_case(clsname, ops, acc, compare_prefix, key_idx=None):
                 acc.c['native_with_group'] += 1
         if obs != exp:
             ok = False
-            acc.viol(vkey(clsname, n, ops[:idx + 1], exp, obs, kinds),
+            narrow = n != 'read' and any(option_with_library_tail(a) for a in model) and obs == ref_native(model, clsname, True)
+            acc.viol('C13:%s:%s' % (clsname, NARROW_GROUP) if narrow else vkey(clsname, n, ops[:idx + 1], exp, obs, kinds),
                      'after %s: expected %r, observed %r' % ('; '.join(opname(o) for o in ops[:idx + 1]), exp, obs), rep)
         if n == 'tn_copy':
             after = list(obj)
@@ -628,11 +719,13 @@ def list_or(x):
 
 # ---- bfs worker ---------------------------------------------------------------------------------------------
 BFS_SEEN = {}
+BFS_SUFFIX = ''         # appended to every violation key of a search (the tail part: the value tail of the alphabet)
 
 
 def expand_chunk(arg):
     clsname, frontier_only, states = arg
-    acc = Acc()
+    acc = ShapeAcc()
+    acc.suffix = BFS_SUFFIX
     succ = {}
     seen = BFS_SEEN
     obs_ids = [i for i, o in enumerate(OPS) if o[0] in OBS_NAMES]
@@ -650,10 +743,11 @@ def expand_chunk(arg):
     return succ, dict(acc.c), acc.v, dict(acc.vn)
 
 
-def bfs(ck, clsname, depth, ops):
+def bfs(ck, clsname, depth, ops, key_suffix=''):
     """Search to `depth` with the operation list `ops`. Returns counts and the dict of known product states."""
-    global OPS, BFS_SEEN
+    global OPS, BFS_SEEN, BFS_SUFFIX
     OPS = ops
+    BFS_SUFFIX = key_suffix
     seen = {'|||0#': b''}   # product-state key -> representative (first found, shortest) history
     frontier = [b'']
     tot = collections.Counter()
@@ -966,14 +1060,6 @@ def lib_ops(clsname, lib):
         ops.append(('extend_direct', (a, comp[0])))
         ops.append(('extend_direct', (comp[0], a)))
     return ops
-
-
-class ShapeAcc(Acc):
-    """Accumulator that marks every key with the library-file shape class of the case."""
-    suffix = ''
-
-    def viol(self, key, what, replay):
-        Acc.viol(self, key + self.suffix, what, replay)
 
 
 def libfile_chunk(arg):
@@ -1433,6 +1519,59 @@ def main():
         ck.sample({'libfile_case': ['+= %r' % [LIB_SHAPES[13][1], '-Wall'], '+= %r' % ['-Ia', LIB_SHAPES[13][1]], 'list(args)'],
                    'expected': ['-Ia', LIB_SHAPES[13][1], '-Wall']})
 
+    tail_states = 0
+    if ck.want('tail'):
+        tdepth = 3
+        bad, open_args = tail_register()
+        for c, a, st, tk, label in bad:
+            ck.violation('C13:%s:tables-contradict-statement:%s:tail:%s' % (c, KIND_NAMES[st], label),
+                         'the property statement makes %r %s (an argument of the option it starts with), the tables of %s make it %s'
+                         % (a, KIND_NAMES[st], CLS[c].__name__, KIND_NAMES.get(tk, 'undetermined')), {'cls': c, 'table_kind': a})
+        ck.require(not open_args, 'tail: arguments of a tail alphabet are left open by the tables: %r' % (open_args,))
+        ck.require(set(tail_classes()) == {c for c in CLASSES if any(k.override for k in KINDS[c].values())},
+                   'tail: the classes with override options are not the classes whose alphabet holds an override-type argument')
+        for clsname in tail_classes():
+            kinds = KINDS[clsname]
+            tot = collections.Counter()
+            vcount = 0
+            per_tail = {}
+            nops = 0
+            for label, t in LIB_TAILS.items():
+                alpha = tail_alphabet(clsname, t)
+                tailed = [a for a in alpha if a.endswith(t)]
+                # every override option of the class has a value with this tail; the kinds are those of the plain alphabet
+                ck.require(sorted(KIND_NAMES[kinds[a]] for a in alpha) == sorted(KIND_NAMES[kinds[a]] for a in ALPHAS[clsname]),
+                           'tail: the %s alphabet of %s does not hold the kinds of the plain alphabet' % (label, clsname))
+                ck.require(all(kinds[a].override for a in tailed if a.startswith('-') and a not in ALPHAS[clsname])
+                           and sum(1 for a in tailed if kinds[a].override) >= 2,
+                           'tail: %s/%s: the arguments with the tail are not override-type' % (clsname, label))
+                ck.require(all(stated_library_file(a.lstrip('-')) for a in tailed), 'tail: %r do not end like a library file' % (tailed,))
+                ops = build_tail_ops(alpha, kinds)
+                nops = len(ops)
+                r = bfs(ck, clsname, tdepth, ops, key_suffix=':tail:' + label)
+                c = r['counters']
+                tot.update(c)
+                vcount += sum(r['violation_counts'].values())
+                per_tail[label] = {'alphabet': alpha, 'states': r['states'], 'transitions': c['transitions']}
+                tail_states += r['states']
+                total_states += r['states']
+                total_trans += c['transitions']
+                traces += c['transitions']
+                pending_reads += c['observed_with_pending_queue']
+                if not ck.n_viol:
+                    ck.require(c['observed_with_pending_override_check'] > 0, 'tail %s/%s: override merge never pending at a read' % (clsname, label))
+                    ck.require(c['copy_with_pending_queue'] > 0 and c['direct_insertion_with_pending_queue'] > 0,
+                               'tail %s/%s: no copy / direct insertion with a pending queue' % (clsname, label))
+                r = None
+            ck.part('tail_' + clsname, tails=list(LIB_TAILS.values()), depth=tdepth, operations=nops, per_tail=per_tail,
+                    violating_transitions=vcount, **{k: v for k, v in sorted(tot.items())})
+            if not ck.n_viol:
+                ck.require(tot['observed_with_pending_queue'] > 0, 'tail: no observer ran with a non-empty pending queue')
+        bounds.append('tail: %d value tails x depth %d over the tail operations (observers, copy, 3 routes x every argument, '
+                      'two-element batches of the override-type arguments) for the classes with override options' % (len(LIB_TAILS), tdepth))
+        ck.sample({'tail_case': ["+= ['-Dx=.so']", "+= ['-Ux']", "+= ['-Dx=.so']", 'list(args)'],
+                   'expected': ref_batch(ref_batch(ref_batch([], ['-Dx=.so'], KINDS['clike']), ['-Ux'], KINDS['clike']), ['-Dx=.so'], KINDS['clike'])})
+
     eq_cases = 0
     eq_reported = set()
     if ck.want('eqread'):
@@ -1505,9 +1644,11 @@ def main():
                    'list + object, the object itself and its copy) [x one following operation on any object], every object '
                    're-read afterwards; seqread part = reversed()/indexing/slicing after every sequence <= 2; native part = all '
                    'lists <= N over 11 linker/-isystem tokens; libfile part = every library-file name shape (location x name form) x all '
-                   'sequences <= D over the operations that add it, alone and in two-element batches; eqread part = a == b after every pair of histories <= 2' % ('/'.join('%d' % len(OPSETS[c]) for c in CLASSES), '; '.join(bounds), fdepth),
+                   'sequences <= D over the operations that add it, alone and in two-element batches; tail part = for the classes with '
+                   'override options, one variant alphabet per library-file ending in which the value of every override option ends that '
+                   'way (-Ia.a, -Dx=.so ...), searched breadth-first to depth 3 with all observers; eqread part = a == b after every pair of histories <= 2' % ('/'.join('%d' % len(OPSETS[c]) for c in CLASSES), '; '.join(bounds), fdepth),
               two_object_cases=pair_cases, sequence_protocol_reads=seq_reads, library_file_shape_sequences=lib_cases,
-              equality_comparisons=eq_cases,
+              equality_comparisons=eq_cases, value_tail_states=tail_states,
               exhaustive=True)
 
 
